@@ -17,6 +17,7 @@ from __future__ import annotations
 
 import itertools
 import json
+import math
 import os
 import shutil
 from fractions import Fraction
@@ -41,7 +42,9 @@ CLAUSES = [
     ("rows stay in order", "adapter:<lib>:value:*, adapter:<lib>:index",
      "adapter: unique-id payloads, 0-4 rows, frames selected from a bigger frame by slice / range / list / index / mask"),
     ("the target is passed through", "adapter:<lib>:y", "adapter: y None / long / float32 / float64"),
-    ("a frame with none of these stypes is rejected", "adapter:<lib>:accepts-empty", "adapter subset 'none' + ignored stypes"),
+    ("a frame with none of these stypes is rejected",
+     "adapter:<lib>:accepts-empty, history:<lib>:accepts-empty  [MUST-RAISE, backed by: \"a frame with none of these "
+     "stypes is rejected\"]", "adapter subset 'none' + ignored stypes"),
     ("ignored stypes (quantifier: plus ignored stypes)", "adapter:<lib>:* (same expectation with and without them)",
      "adapter: timestamp / multicategorical / sequence_numerical / text_tokenized blocks"),
     ("x the three adapters", "all adapter keys per lib", "adapter runs xgb, cat, lgbm; history interleaves them on "
@@ -51,11 +54,53 @@ CLAUSES = [
     ("accuracy with a 0.5 threshold on binary scores", "metric:acc_bin:value[:score-0.5], metric:acc_multi:value",
      "metric: scores at / around 0.5, targets long / int32 / float / bool; multiclass labels long / int32 / float"),
     ("the default metric follows the task type", "pair:default:<task>:None", "pair (all 4 tasks, metric None)"),
-    ("unsupported metric/task pairs are rejected", "pair:accepted:*, pair:request:*",
+    ("unsupported metric/task pairs are rejected",
+     "pair:accepted:<task>:<metric>  [MUST-RAISE, backed by: \"unsupported metric/task pairs are rejected\"; NOT "
+     "demanded for (task without default, metric=None): relaxed], pair:request:*",
      "pair: all 4 x 5 pairs, num_classes None / 2 / 3 / 10, positional / keyword / mixed constructor call"),
-    ("predicting or saving before tuning raises", "guard:predict:no-raise, guard:save:no-raise, guard:*:raised",
+    ("predicting or saving before tuning raises",
+     "guard:predict:no-raise, guard:save:no-raise  [MUST-RAISE, backed by: \"predicting or saving before tuning "
+     "raises\"; a tune() that itself raises is NOT demanded: relaxed], guard:*:raised",
      "guard: all sequences up to length 3 + random longer ones; tune positional / keyword / extra kwargs; failing "
      "tune by _tune raising or y None; save(str / Path / keyword / path without directory), load(str / Path / keyword)"),
+]
+
+# Every raise / assert / try-except / special-case branch / dtype cast / exact float comparison of the anchored code
+# (gbdt.py, tuned_xgboost.py, tuned_catboost.py, tuned_lightgbm.py): site -> generator kind -> oracle key.
+ERROR_PATHS = [
+    ("GBDT.__init__: DEFAULT_METRIC[task_type] (KeyError for a task without default)", "pair: multilabel x every metric",
+     "pair:accepted:multilabel_classification:*"),
+    ("GBDT.__init__: metric.supports_task_type(task_type) else ValueError", "pair: all 4 x 5 pairs", "pair:accepted:*, pair:request:*"),
+    ("tune: tf_train.y / tf_val.y is None -> RuntimeError; _is_fitted = True only after _tune returned",
+     "guard op tune_fail (forms noy_train / noy_val / raise)", "guard:tune_fail:no-raise, guard:predict:no-raise"),
+    ("predict: not is_fitted -> RuntimeError; asserts on pred.ndim / len(pred)", "guard (all sequences <= 3, forms pos / kw); "
+     "the asserts concern the subclass' _predict (stub returns the right shape): outside the property",
+     "guard:predict:no-raise, guard:predict:raised"),
+    ("save: not is_fitted -> RuntimeError; os.makedirs(dirname(path))", "guard op save (str / Path / kw / no directory "
+     "part while unfitted)", "guard:save:no-raise, guard:save:raised"),
+    ("load: _is_fitted = True", "guard op load (str / Path / kw)", "guard:predict:raised after load"),
+    ("compute_metric: metric dispatch; `else: raise ValueError` (dead: all metrics enumerated); ROCAUC / R2 via sklearn "
+     "(out of scope)", "metric cases rmse / mae / acc_bin / acc_multi", "metric:*:value, metric:*:raised"),
+    ("compute_metric: (pred - target).square().mean().sqrt() / .abs().mean()  -- float arithmetic",
+     "float32 / float64 / mixed dtypes, n = 1, 2, perfect, symmetric errors", "metric:rmse:value, metric:mae:value"),
+    ("compute_metric: pred > 0.5 (exact float comparison, binary only); target == pred; total_correct / len(target)",
+     "scores 0.5, 0.5 +- 1 ulp (float32 / float64), targets long / int32 / float / bool; multiclass predictions long / "
+     "int32 / float32", "metric:acc_bin:value[:score-0.5], metric:acc_multi:value"),
+    ("neg_to_nan: x == -1; `if is_neg.any()` special case; copy.copy(x).to(float32); x[is_neg] = nan",
+     "categorical block with no / some / all -1, -2 and 0 codes, boundaries cat_*; NOT generated: codes > 2^24 (the "
+     "float32 cast rounds 16777217 to 16777216 -- clean-tree behaviour, reported)", "adapter:xgb:value:categorical"),
+    ("torch.cat(feats, dim=-1): dtype promotion int64 / float32 / float64", "numerical float32 / float64 next to a "
+     "categorical block with / without -1; boundaries num_f64_not_f32, num_f32_extremes (max, subnormal, -0.0), num_inf",
+     "adapter:xgb:value:numerical / categorical"),
+    ("feat.values.reshape(n, width) (embedding)", "embedding from_tensor_list / column slice / constructor, 0 rows, "
+     "boundaries emb_f32_extremes, emb_inf", "adapter:<lib>:value:embedding, adapter:<lib>:shape"),
+    ("len(feats) == 0 / len(dfs) == 0 -> ValueError", "subset 'none' (+ ignored stypes), history rejected-then-valid",
+     "adapter:<lib>:accepts-empty, history:<lib>:raised"),
+    ("tf.cpu(); y.numpy() if y is not None", "y None / long / float32 / float64, boundaries y_extremes, y_inf", "adapter:<lib>:y"),
+    ("catboost / lightgbm: np.concatenate(cat_features) if len(cat_features) else np.array([]) / []",
+     "frames without categorical columns; histories cat_then_nocat / nocat_then_cat", "adapter:<lib>:cat_features"),
+    ("catboost / lightgbm: np.arange(offset, offset + width) with the running offset", "equal_widths, one_column_each",
+     "adapter:<lib>:columns, adapter:<lib>:cat_features"),
 ]
 
 PROP = "C20"
@@ -81,6 +126,10 @@ TRUSTED = [
     "harness/c20.py (generator, plain-Python references with fractions.Fraction, Coq literal printer)",
 ]
 ASSUMPTIONS = [
+    "a raise is demanded only where the statement demands one: a frame with none of the three stypes, predict / save "
+    "before a tune() that returned or a load(), an unsupported (task, metric) pair; NOT demanded (either outcome "
+    "accepted, model not compared when the code returns normally): GBDT(task without default metric, metric=None), "
+    "tune() with y = None or with a failing _tune",
     "the boosters (xgboost / catboost / lightgbm / optuna) and ROC-AUC / R2 (sklearn) are out of scope",
     "float round-off: payloads are float32-exact; RMSE is compared squared within 1e-5 relative, MAE within 1e-6",
     "guards are exercised through a stub subclass whose _tune/_predict/_load are trivial",
@@ -258,6 +307,10 @@ BOUNDARIES = [
     ("cat_all_missing, cat_missing_first_cell, cat_missing_last_cell", "-1 everywhere / only in the first / last cell"),
     ("cat_minus2_and_zero", "category codes -2 and 0 next to -1 (only -1 is missing)"),
     ("num_minus1, num_nan_first_cell, num_nan_last_cell, num_all_nan", "a numerical -1; NaN first / last / everywhere"),
+    ("num_f32_extremes, emb_f32_extremes, num_f64_not_f32, y_extremes",
+     "float32 max / -max / smallest subnormal / -0.0 / 1+2^-23; float64 values that float32 cannot hold next to a "
+     "categorical block with -1 (float32 after neg_to_nan)"),
+    ("num_inf, emb_inf, y_inf", "+-inf in the numerical block, an embedding cell, the target (oracle only)"),
     ("y_all_equal", "a constant target"),
     ("only_ignored", "a frame with ignored stypes only (rejected)"),
     ("hist_same_frame_twice", "one adapter object converts the SAME frame object twice"),
@@ -317,6 +370,21 @@ def gen_boundary_cases(rng):
     f = A("num_nan_first_cell", _bframe(2, 1, 2, [1], rng)); f["num"]["rows"][0][0] = None
     f = A("num_nan_last_cell", _bframe(2, 1, 2, [1], rng)); f["num"]["rows"][-1][-1] = None
     f = A("num_all_nan", _bframe(2, 0, 2, [], rng)); f["num"]["rows"] = [[None, None]] * 2
+    # numeric representation: magnitude extremes, signed zero, inf (every place a float is moved or cast)
+    F32MAX, TINY = [2 ** 128 - 2 ** 104, 1], [1, 2 ** 149]
+    f = A("num_f32_extremes", _bframe(3, 1, 2, [1], rng))
+    f["num"]["rows"] = [[F32MAX, [-(2 ** 128 - 2 ** 104), 1]], [TINY, ["negzero", 1]], [[0, 1], [2 ** 23 + 1, 2 ** 23]]]
+    f["cat"]["rows"][0][0] = -1
+    f = A("num_f64_not_f32", _bframe(2, 1, 2, [], rng)); f["form"]["num_dtype"] = "float64"
+    f["num"]["rows"] = [[[2 ** 53 - 1, 1], [1, 2 ** 60]], [[2 ** 24 + 1, 1], [-(2 ** 53 - 1), 2 ** 30]]]
+    f["cat"]["rows"][1][0] = -1
+    f = A("emb_f32_extremes", _bframe(2, 0, 0, [2, 1], rng))
+    f["emb"]["rows"] = [[[F32MAX, TINY], [["negzero", 1]]], [[[0, 1], [-1, 2 ** 149]], [[1, 1]]]]
+    f = A("num_inf", _bframe(2, 1, 2, [1], rng)); f["num"]["rows"][0][1] = ["inf", 1]; f["num"]["rows"][1][0] = ["inf", -1]
+    f = A("emb_inf", _bframe(2, 1, 0, [2], rng)); f["emb"]["rows"][1][0][1] = ["inf", -1]
+    f = A("y_extremes", _bframe(3, 1, 1, [], rng)); f["form"]["y_float"] = "float64"
+    f["y"]["v"] = [[2 ** 53 - 1, 1], ["negzero", 1], [1, 2 ** 60]]
+    f = A("y_inf", _bframe(2, 1, 1, [], rng)); f["y"]["v"] = [["inf", 1], ["inf", -1]]
     A("y_all_equal", _bframe(3, 1, 1, [1], rng, y="long"))
     A("only_ignored", _bframe(2, 0, 0, [], rng, y=None, ignored=["timestamp", "multicategorical"]))
 
@@ -398,6 +466,8 @@ def _fr(x):
         return None
     if x in (float("inf"), float("-inf")):
         return ["inf", 1 if x > 0 else -1]
+    if x == 0 and math.copysign(1.0, x) < 0:
+        return ["negzero", 1]
     f = Fraction(x)
     return [f.numerator, f.denominator]
 
@@ -405,8 +475,19 @@ def _fr(x):
 def _tens(rows, w, dtype):
     if dtype == torch.long:
         return torch.tensor(rows, dtype=torch.long).reshape(len(rows), w)
-    vals = [[float("nan") if v is None else v[0] / v[1] for v in r] for r in rows]
+    vals = [[_pyval(v) for v in r] for r in rows]
     return torch.tensor(vals, dtype=dtype).reshape(len(rows), w)
+
+
+def _pyval(v):
+    """a written-out value: [num, den] | None (NaN) | ["inf", sign] | ["negzero", 1]"""
+    if v is None:
+        return float("nan")
+    if v[0] == "inf":
+        return math.inf * v[1]
+    if v[0] == "negzero":
+        return -0.0
+    return v[0] / v[1]
 
 
 def build_tf(case):
@@ -504,7 +585,7 @@ def _build_tf(case):
         if case["y"]["dtype"] == "long":
             y = torch.tensor([v[0] for v in case["y"]["v"]], dtype=torch.long)
         else:
-            y = torch.tensor([v[0] / v[1] for v in case["y"]["v"]],
+            y = torch.tensor([_pyval(v) for v in case["y"]["v"]],
                              dtype=torch.float64 if form.get("y_float") == "float64" else torch.float32)
     return TensorFrame(feat_dict, names, y=y)
 
@@ -644,7 +725,7 @@ def run(case):
                 g = Stub(task_type=t, num_classes=fm["num_classes"], metric=m)
             else:
                 g = Stub(t, num_classes=fm["num_classes"], metric=m)
-            return {"ok": True, "metric": g.metric.value}
+            return {"ok": True, "metric": getattr(g.metric, "value", None)}
         except Exception as ex:
             return {"ok": False, "exc": C.exc_name(ex)}
     if kind == "metric":
@@ -727,7 +808,14 @@ def run(case):
 
 # ----------------------------------------------------------------- direct oracle
 def F(v):
-    return None if v is None else Fraction(v[0], v[1])
+    """written-out value -> comparable: None | "inf" / "-inf" | "negzero" | Fraction"""
+    if v is None:
+        return None
+    if v[0] == "inf":
+        return "inf" if v[1] > 0 else "-inf"
+    if v[0] == "negzero":
+        return "negzero"
+    return Fraction(v[0], v[1])
 
 
 def ref_matrix(case, lib):
@@ -755,7 +843,7 @@ def ref_width(case):
 
 
 def _obs_rows(rows):
-    return [[None if v is None else ("inf" if v[0] == "inf" else Fraction(v[0], v[1])) for v in r] for r in rows]
+    return [[F(v) for v in r] for r in rows]
 
 
 def oracle_adapter(case, obs):
@@ -868,6 +956,14 @@ def oracle(case, obs):
         return oracle_history(case, obs)
     if kind == "pair":
         t, m = case["task"], case["metric"]
+        if m is None and t not in REF_DEFAULT:
+            # NOT backed by the statement: constructing a model for a task that has no default metric, without
+            # asking for one (the current code raises KeyError).  Either a raise or a model without a metric is
+            # accepted; a metric the task does not support is not ("the default metric follows the task type").
+            if obs["ok"] and obs["metric"] is not None and obs["metric"] not in REF_SUPPORTED[t]:
+                return dict(key=f"pair:default:{t}:None", what=f"GBDT({t}) selected {obs['metric']}, which {t} does not support",
+                            expected="a raise or no metric", observed=obs)
+            return None
         if m is None:
             exp = REF_DEFAULT.get(t)
         else:
@@ -904,15 +1000,24 @@ def oracle(case, obs):
                         expected=str(ref), observed=float(g))
         return None
     # guard
+    # fitted: False / True / None (unknown: no demand until the next tune / load)
     fitted = False
-    for k, (op, st) in enumerate(zip(case["ops"], obs["steps"])):
+    forms = case.get("forms") or [None] * len(case["ops"])
+    for k, (op, fm, st) in enumerate(zip(case["ops"], forms, obs["steps"])):
         if op == "tune":
             exp_ok, fitted = True, True
         elif op == "tune_fail":
-            exp_ok = False
+            # NOT backed by the statement: that tune() itself raises (because y is None, or because the subclass'
+            # _tune raised).  A raise leaves the model as it was; a normal return with y = None means the model was
+            # tuned; a normal return after a failing _tune leaves the state unknown.
+            if st["ok"]:
+                fitted = True if fm in ("noy_train", "noy_val") else None
+            continue
         elif op == "load":
             exp_ok, fitted = True, True
         else:
+            if fitted is None:
+                continue
             exp_ok = fitted
         if st["ok"] != exp_ok:
             if exp_ok:
@@ -1150,6 +1255,8 @@ def cval(v):
         return "None"
     if v[0] == "inf":
         raise ValueError("infinite observation")
+    if v[0] == "negzero":
+        return "(Some (Qmake 0 1))"                  # the model is value-level: -0.0 = 0
     return f"(Some {cq(v)})"
 
 
@@ -1177,6 +1284,17 @@ def coq_dict(case):
             ents.append(f"(st_{key}, POther)")
     y = "None" if case["y"] is None else "(Some " + C.clist(case["y"]["v"], cval) + ")"
     return "[" + "; ".join(ents) + "]", y
+
+
+def _has_inf(case):
+    vals = []
+    if case["num"]:
+        vals += [v for r in case["num"]["rows"] for v in r]
+    if case["emb"]:
+        vals += [v for r in case["emb"]["rows"] for c in r for v in c]
+    if case["y"] is not None:
+        vals += case["y"]["v"]
+    return any(v is not None and v[0] == "inf" for v in vals)
 
 
 def coq_with_tf(case, body):
@@ -1219,6 +1337,10 @@ def coq_term(case, obs):
     if obs is None or "harness_exc" in obs:
         return None
     kind = case["kind"]
+    if kind == "adapter" and _has_inf(case):
+        return None                                   # the model's values are rationals / NaN: inf is oracle-only
+    if kind == "history" and any(_has_inf(f) for f in case["frames"]):
+        return None
     if kind == "adapter":
         return coq_with_tf(case, " && ".join(coq_lib_term(lib, obs[lib]) for lib in LIBS))
     if kind == "history":
@@ -1227,6 +1349,10 @@ def coq_term(case, obs):
                  for st, o in zip(case["steps"], obs["steps"])]
         terms.append(C.cbool(all(obs["unchanged_later"])))
         return "(" + " && ".join(terms) + ")"
+    if kind == "pair" and case["metric"] is None and case["task"] not in REF_DEFAULT and obs["ok"]:
+        return None          # the model mirrors the current code's raise, which the statement does not demand
+    if kind == "guard" and any(op == "tune_fail" and st["ok"] for op, st in zip(case["ops"], obs["steps"])):
+        return None          # likewise for a tune() that did not raise
     if kind == "pair":
         m = "None" if case["metric"] is None else f"(Some met_{case['metric'].upper()})"
         o = f"(Some met_{obs['metric'].upper()})" if obs["ok"] else "None"
